@@ -13,11 +13,20 @@
 (***************************************************************************)
 EXTENDS Ops
 
+\* one quotient digit: the remainder carried into an iteration is below ten times the divisor, so the digit is found by
+\* comparing against the ten multiples of the divisor (computed once) - <<digit, remainder>>
+DigitStep(r, mult) ==
+  LET ge(k) == NCmp(r, mult[k]) >= 0
+      k == IF ge(5) THEN (IF ge(7) THEN (IF ge(9) THEN 9 ELSE IF ge(8) THEN 8 ELSE 7)
+                                   ELSE (IF ge(6) THEN 6 ELSE 5))
+                    ELSE (IF ge(3) THEN (IF ge(4) THEN 4 ELSE 3)
+                                   ELSE (IF ge(2) THEN 2 ELSE IF ge(1) THEN 1 ELSE 0))
+  IN <<k, IF k = 0 THEN r ELSE NSub(r, mult[k])>>
 RECURSIVE DivLoop(_, _, _, _, _, _)
-DivLoop(quot, rem10, den, scale, prec, P) ==      \* rem10 = remainder * 10
+DivLoop(quot, rem10, mult, scale, prec, P) ==      \* rem10 = remainder * 10; quot * 10 + digit = the digit put in front
   IF rem10 = <<>> \/ prec >= P THEN <<quot, rem10, scale>>
-  ELSE LET dm == NDivMod(rem10, den)
-       IN DivLoop(NAdd(NMulSmall(quot, 10), dm[1]), NMulSmall(dm[2], 10), den, scale + 1, prec + 1, P)
+  ELSE LET ds == DigitStep(rem10, mult)
+       IN DivLoop(<<ds[1]>> \o quot, NMulSmall(ds[2], 10), mult, scale + 1, prec + 1, P)
 RECURSIVE ShiftUp(_, _, _)
 ShiftUp(num, den, scale) == IF NCmp(num, den) < 0 THEN ShiftUp(NMulSmall(num, 10), den, scale + 1) ELSE <<num, scale>>
 DivMech(x, y, P) ==
@@ -25,8 +34,9 @@ DivMech(x, y, P) ==
   ELSE LET su == ShiftUp(x.d, y.d, x.sc - y.sc)
            dm == NDivMod(su[1], y.d)
        IN IF dm[2] = <<>> THEN Mk(x.s * y.s, dm[1], su[2])
-          ELSE LET st == DivLoop(dm[1], NMulSmall(dm[2], 10), y.d, su[2], Len(dm[1]), P)
-                   up == st[2] # <<>> /\ NCmp(NDiv(st[2], y.d), NatOf(5)) >= 0
+          ELSE LET mult == [k \in 0..9 |-> NMulSmall(y.d, k)]
+                   st == DivLoop(dm[1], NMulSmall(dm[2], 10), mult, su[2], Len(dm[1]), P)
+                   up == st[2] # <<>> /\ DigitStep(st[2], mult)[1] >= 5
                IN Mk(x.s * y.s, IF up THEN NAdd(st[1], One) ELSE st[1], st[3])
 
 \* ---- with_prec: round half away from zero to wp digits when longer, otherwise the same value
